@@ -64,17 +64,19 @@ func (a *multiClusterTokenReviewAuthenticator) AuthenticateToken(ctx context.Con
 		// if token cache ttl is 0, call upstream cluster directly
 		tokenAuth = a.authenticateTokenForHost(host)
 	} else {
-		// split cache by host
-		cache, loaded := a.caches.Load(host)
+		// split cache by host; a host name can move to another cluster while both clusters live,
+		// so the cache belongs to (cluster, host)
+		cacheKey := cluster.Cluster + "/" + host
+		cache, loaded := a.caches.Load(cacheKey)
 		if !loaded {
 			// use token cache, if no cache is hit, authenticateToken() will be called
 			// tokencache use a new context inheriting from context.Background() without all value of req.Context.
-			cache, loaded = a.caches.LoadOrStore(host, tokencache.New(a.authenticateTokenForHost(host), false, a.tokenSuccessCacheTTL, a.tokenFailureCacheTTL))
+			cache, loaded = a.caches.LoadOrStore(cacheKey, tokencache.New(a.authenticateTokenForHost(host), false, a.tokenSuccessCacheTTL, a.tokenFailureCacheTTL))
 			// destry cache when cluster stopped
 			if !loaded {
 				go func() {
 					<-cluster.Context().Done()
-					a.caches.Delete(host)
+					a.caches.Delete(cacheKey)
 				}()
 			}
 		}
